@@ -152,10 +152,6 @@ func (vm *VM) convertPanic(msg any) error {
 		return err
 	case *fatalError:
 		return err
-	case *PanicError:
-		// A function called by a native function has panicked and the
-		// native function has not recovered the panic.
-		return err
 	case outError:
 		return vm.newPanic(err)
 	}
@@ -198,6 +194,10 @@ func (vm *VM) convertPanic(msg any) error {
 		switch msg := msg.(type) {
 		case runtimeError:
 			break
+		case *PanicError:
+			// A function called by the native function has panicked and
+			// the native function has not recovered the panic.
+			return msg
 		case *fatalError:
 			// TODO: check env.
 			return msg
